@@ -540,9 +540,10 @@ def overwrite_rule(P, R, K):
     """COPY and range expansion replace an existing target number: Rxn_copy / Rxn_copies store the copy with an overwriting
     operation (map operator[] followed by class assignment, or erase before insert); a non-overwriting insert/emplace keeps the
     old entry of an existing number (and the next number of a range would then be copied from that stale entry)."""
-    R.rule("C14.overwrite", "Rxn_copy / Rxn_copies overwrite an existing target number (operator[] assignment or erase+insert, never a bare insert/emplace)", minimum=22)
+    R.rule("C14.overwrite", "Rxn_copy / Rxn_copies / Rxn_read_raw / Rxn_mix overwrite an existing target number (operator[] assignment or erase+insert, never a bare insert/emplace)",
+           minimum=40)
     n = 0
-    for tag in ("Rxn_copy", "Rxn_copies"):
+    for tag in ("Rxn_copy", "Rxn_copies", "Rxn_read_raw", "Rxn_mix"):
         fs = [f for f in P.functions.values() if f["q"].startswith("Utilities::%s<" % tag)]
         for f in fs:
             n += 1
@@ -565,8 +566,8 @@ def overwrite_rule(P, R, K):
                 R.ok("C14.overwrite", inst, "b[j] = source (overwrites)" if assigns_sub else "erase + insert")
             else:
                 R.violation("C14.overwrite", inst, "no overwriting store of the copy found (expected `b[j] = it->second`)", file=f["file"], line=f["line"], function=f["q"])
-    if n < 22:
-        R.anchor_missing("C14.overwrite", "only %d instantiations of Utilities::Rxn_copy / Rxn_copies found (11 kinds each)" % n)
+    if n < 40:
+        R.anchor_missing("C14.overwrite", "only %d instantiations of Utilities::Rxn_copy / Rxn_copies / Rxn_read_raw / Rxn_mix found (11 + 11 + 11 + 7 kinds)" % n)
 
 
 # ------------------------------------------------------------------------------------------ components
